@@ -13,28 +13,35 @@ package server
 //   * ArbiterStore.Save / Load on a scratch meta-<i>.pb; restart = new manager + store.Load + proposalId := commitId
 //     (the one line of ArbiterManager.Load that follows store.Load; LoadMaxAofId needs a whole Aof and is replaced by
 //     keeping the member's log position).
-// What the harness replicates itself (3 + 4 lines of StartVote): the phase chaining DoVote → DoProposal → DoCommit and
-// the "wait for the announcement of the host I am latched on" guard at the head of the election loop.
-// Not exercised: voteSucced / announcements (they need a complete SLock), offline members, REPL_CONNECT.
+// What the harness replicates itself (a dozen lines of StartVote): the phase chaining DoVote → DoProposal → DoCommit and
+// the head of the election loop ("wait for the announcement of the online host I am latched on", "no vote without an
+// online majority"). Member tables may hold LEADER roles and offline entries (fixed for the execution).
+// Not exercised: voteSucced / announcement handling (they need a complete SLock; the announcements a refusing acceptor
+// fires are lost), status changes, manager.leaderMember, REPL_CONNECT.
 //
 // Scheduling is deterministic: GOMAXPROCS(1), and after every hand-over the harness yields until the woken goroutines are
 // parked again. The self request of a phase therefore always runs first (the model allows any position; the op line
 // says `q<c>.<c>` right after the event that started the phase).
 
 // Monitor signatures (all evaluated on the real objects):
-//   symptom:cause   C12:{two-commit-majorities,two-commit-numbers,two-leaders-elected}:{restart-forgot-commit (D1),
-//                   failed-commit-cleared-latch (D3), doproposal-overwrote-number (D2), other};
+//   symptom:cause   C12:{two-commit-majorities,two-commit-numbers,two-leaders-elected}:{restart-forgot-commit (D1, recorded),
+//                   failed-commit-cleared-latch (the candidate released the latch it had set ITSELF after a commit round
+//                   whose replies were lost — recorded; seen for majorities / numbers only, never two leaders),
+//                   failed-commit-cleared-foreign-latch (D3, repaired), doproposal-overwrote-number (D2, repaired), other};
 //                   C12:regressed-across-restart:{commit-not-persisted, proposal-not-persisted (D1), other};
-//                   C12:proposal-regressed:{doproposal-overwrote-number (D2), other};  C12:commit-regressed.
+//                   C12:proposal-regressed:{doproposal-overwrote-number (D2, repaired), other};  C12:commit-regressed.
 //                   The cause is read off the execution: every member that acknowledged both commits must have been
-//                   restarted, had its latch cleared by its own failed DoCommit, or had its proposalId changed by its own
-//                   successful DoProposal BETWEEN its two acknowledgements (the latest such step names the cause); else other.
-//   handler contract (silent on the unchanged code): C12:acceptor-acked-commit-for-other-number (number ≠ proposalId held
-//                   or ≤ commitId held), C12:acceptor-acked-commit-for-other-host (latched on another host; suffix
-//                   :doproposal-overwrote-number when D2 moved the latched member's number since its last ack),
-//                   C12:acceptor-accepted-non-increasing-proposal, C12:acceptor-accepted-proposal-while-latched,
-//                   C12:acceptor-accepted-older-log — checked at every remote handler success and at DoSelfProposal /
-//                   DoSelfCommit (seen through their effect on the voter).
+//                   restarted, had its latch cleared by its own failed DoCommit, or had its proposalId changed by the end
+//                   of its own DoProposal other than by a promise the proposal handler would make (lowered, moved while
+//                   latched, or to a number that was not proposed) BETWEEN its two acknowledgements (the latest such step
+//                   names the cause); else other.
+//   proposer contract: C12:docommit-sent-other-number (DoCommit sends a number its proposal round did not carry; D2, repaired).
+//   handler contract (silent): C12:acceptor-acked-commit-for-other-number (number ≠ proposalId held or ≤ commitId held),
+//                   C12:acceptor-acked-commit-for-other-host (latched on another host; suffix :doproposal-overwrote-number
+//                   when D2 moved the latched member's number since its last ack), C12:acceptor-accepted-non-increasing-proposal,
+//                   C12:acceptor-accepted-proposal-while-latched, C12:acceptor-accepted-proposal-while-leader-online,
+//                   C12:acceptor-accepted-older-log — checked at every remote
+//                   handler success and at DoSelfProposal / DoSelfCommit (seen through their effect on the voter).
 
 import (
 	"fmt"
@@ -82,6 +89,12 @@ func (c *vElConn) Write(b []byte) (int, error) {
 		}
 		cmd.Data = append([]byte{}, c.buf[64:total]...)
 		c.buf = c.buf[total:]
+		if cmd.MethodName == "REPL_ANNOUNCEMENT" {
+			// an acceptor that refuses a proposal because it knows a leader fires DoAnnouncement(): announcements are
+			// outside the modelled window, every one of them is lost (the Request ends with a read error)
+			c.node.clients[c.to].rchannel <- nil
+			continue
+		}
 		c.x.posted <- &vElPost{node: c.node, to: c.to, cmd: cmd}
 	}
 	return len(b), nil
@@ -97,7 +110,7 @@ func (c *vElConn) SetWriteDeadline(t time.Time) error { return nil }
 type vElSpec struct {
 	rank, weight, arbiter, own int
 	pid, cid, saved            uint64
-	roles, views               []int
+	roles, views, statuses     []int
 }
 
 type vElNode struct {
@@ -113,6 +126,7 @@ type vElNode struct {
 	wins             []vElAck // every successful DoCommit of this member as candidate (number = proposalIndex it sent)
 	savedTracked     uint64   // commitId at the last ArbiterStore.Save of this member
 	pre              vElPre   // voter fields just before the event being executed completes one of its requests
+	roundNum         uint64   // the number in the proposal requests of the running / last DoProposal round
 }
 
 type vElAck struct {
@@ -122,8 +136,8 @@ type vElAck struct {
 }
 
 type vElPre struct {
-	pid, cid uint64
-	latch    string
+	pid, cid    uint64
+	latch, from string
 }
 
 // a step of the execution that is one of the three recorded defects at work on `member`
@@ -161,7 +175,7 @@ type vElRun struct {
 
 func (x *vElRun) preOf(i int) vElPre {
 	v := x.nodes[i].mgr.voter
-	return vElPre{v.proposalId, v.commitId, v.proposalHost}
+	return vElPre{v.proposalId, v.commitId, v.proposalHost, v.proposalFromHost}
 }
 
 func (x *vElRun) violation(sig, what string) {
@@ -173,6 +187,12 @@ func (x *vElRun) checkProposalAccept(t int, pre vElPre, k uint64, aof [16]byte, 
 	mgr := x.nodes[t].mgr
 	if k <= pre.pid || k <= pre.cid {
 		x.violation("C12:acceptor-accepted-non-increasing-proposal", fmt.Sprintf("member %d accepted proposal %d (%s) while holding proposalId %d, commitId %d", t, k, how, pre.pid, pre.cid))
+	}
+	for _, mb := range mgr.members {
+		if mb.role == ARBITER_ROLE_LEADER && (mb.isSelf || mb.status == ARBITER_MEMBER_STATUS_ONLINE) {
+			x.violation("C12:acceptor-accepted-proposal-while-leader-online", fmt.Sprintf("member %d accepted proposal %d (%s) although its table holds the online leader %s", t, k, how, mb.host))
+			break
+		}
 	}
 	if pre.latch != "" {
 		x.violation("C12:acceptor-accepted-proposal-while-latched", fmt.Sprintf("member %d accepted proposal %d (%s) while latched on %s", t, k, how, pre.latch))
@@ -229,6 +249,7 @@ func (x *vElRun) buildNode(i int, fromDisk bool) *vElNode {
 			m := NewArbiterMember(mgr, x.hosts[j], uint32(x.spec[j].weight), uint32(x.spec[j].arbiter))
 			m.role = uint8(sp.roles[j])
 			m.aofId = x.palette[sp.views[j]]
+			m.status = uint8(sp.statuses[j])
 			if j == i {
 				m.isSelf = true
 				mgr.ownMember = m
@@ -244,7 +265,9 @@ func (x *vElRun) buildNode(i int, fromDisk bool) *vElNode {
 	}
 	nd := &vElNode{idx: i, mgr: mgr, clients: make([]*ArbiterClient, x.n), savedTracked: sp.saved}
 	for j, m := range mgr.members {
-		m.status = ARBITER_MEMBER_STATUS_ONLINE
+		if fromDisk || j == i {
+			m.status = ARBITER_MEMBER_STATUS_ONLINE // own entry: Open(); after a restart the harness reconnects every link
+		}
 		if j == i {
 			continue
 		}
@@ -334,7 +357,13 @@ func (x *vElRun) launch(c, phase int) {
 		nd.done <- err
 	}()
 	var ms []*vElMsg
-	for k := 0; k < x.n-1; k++ {
+	expect := 0
+	for j, m := range nd.mgr.members {
+		if j != c && m.status == ARBITER_MEMBER_STATUS_ONLINE {
+			expect++ // the other entries fail at once ("not online"), nothing is sent
+		}
+	}
+	for k := 0; k < expect; k++ {
 		select {
 		case p := <-x.posted:
 			if p.node != nd {
@@ -347,8 +376,22 @@ func (x *vElRun) launch(c, phase int) {
 	}
 	sort.Slice(ms, func(a, b int) bool { return ms[a].t < ms[b].t })
 	x.inflight = append(x.inflight, ms...)
-	nd.outstanding = x.n - 1
+	nd.outstanding = expect
 	vElQuiesce()
+	for _, m := range ms {
+		switch phase {
+		case 2:
+			rq := protobuf.ArbiterProposalRequest{}
+			_ = proto.Unmarshal(m.cmd.Data, &rq)
+			nd.roundNum = rq.ProposalId
+		case 3:
+			rq := protobuf.ArbiterCommitRequest{}
+			_ = proto.Unmarshal(m.cmd.Data, &rq)
+			if rq.ProposalId != nd.roundNum {
+				x.violation("C12:docommit-sent-other-number", fmt.Sprintf("candidate %d sends commit %d although its proposal round carried number %d", c, rq.ProposalId, nd.roundNum))
+			}
+		}
+	}
 }
 
 // the candidate's phase function has returned: chain like the election loop does
@@ -371,14 +414,21 @@ func (x *vElRun) requestFinished(c int, ev string) {
 		next = nd.phase + 1
 	}
 	v := nd.mgr.voter
-	if nd.phase == 2 && err == nil && v.proposalId != nd.pre.pid {
-		// DoProposal's `proposalId = proposalIndex` changed the number the member held as acceptor (D2)
+	if nd.phase == 2 && err == nil && v.proposalId != nd.pre.pid &&
+		!(nd.pre.pid < nd.roundNum && nd.pre.latch == "" && v.proposalId == nd.roundNum) {
+		// the end of DoProposal changed the number the member held as acceptor other than by the promise the proposal
+		// handler itself would have made (lowered it, moved it while latched, or to a number that was not proposed) (D2)
 		x.causes = append(x.causes, vElCause{len(x.events), c, "doproposal-overwrote-number"})
 		x.overwriteBy = c
 	}
 	if nd.phase == 3 && err != nil && nd.pre.latch != "" && v.proposalHost == "" {
-		// a failed DoCommit cleared the latch (D3)
-		x.causes = append(x.causes, vElCause{len(x.events), c, "failed-commit-cleared-latch"})
+		if nd.pre.from == nd.mgr.ownMember.host {
+			// the candidate released the latch it had set itself; if replies were lost a majority may hold this commit
+			x.causes = append(x.causes, vElCause{len(x.events), c, "failed-commit-cleared-latch"})
+		} else {
+			// a failed DoCommit cleared a latch another candidate's commit had set (D3, repaired: must not happen)
+			x.causes = append(x.causes, vElCause{len(x.events), c, "failed-commit-cleared-foreign-latch"})
+		}
 	}
 	nd.phase = next
 	if next == 4 {
@@ -418,8 +468,19 @@ func (x *vElRun) doStart(c int) {
 	nd := x.nodes[c]
 	ev := fmt.Sprintf("s%d", c)
 	v := nd.mgr.voter
-	// head of the StartVote loop: an online member I am latched on (not myself) => wait for its announcement
-	if v.proposalHost != "" && v.proposalHost != nd.mgr.ownMember.host {
+	// head of the StartVote loop: an online member I am latched on (not myself) => wait for its announcement;
+	// fewer than a majority online => no vote
+	online := 0
+	for _, m := range nd.mgr.members {
+		if m.status == ARBITER_MEMBER_STATUS_ONLINE {
+			if m.host == v.proposalHost && nd.mgr.ownMember.host != v.proposalHost {
+				x.emit(ev, "waiting", c)
+				return
+			}
+			online++
+		}
+	}
+	if online < len(nd.mgr.members)/2+1 {
 		x.emit(ev, "waiting", c)
 		return
 	}
@@ -466,6 +527,12 @@ func (x *vElRun) doDeliverReq(m *vElMsg) {
 				out = "REJECT"
 			case "ERR_AOFID":
 				out = "AOFID"
+			case "ERR_ROLE":
+				out = "ROLE"
+			case "ERR_STATUS":
+				out = "STATUS"
+			case "ERR_OFFLINE":
+				out = "OFFLINE"
 			case "ERR_HOST":
 				out = "HOST"
 			case "ERR_PROPOSALID":
@@ -593,12 +660,13 @@ func (x *vElRun) specString() string {
 	}
 	s := "A=" + strings.Join(ps, ",")
 	for _, m := range x.spec {
-		var rs, vs []string
+		var rs, vs, ss []string
 		for j := 0; j < x.n; j++ {
 			rs = append(rs, fmt.Sprint(m.roles[j]))
 			vs = append(vs, fmt.Sprint(m.views[j]))
+			ss = append(ss, fmt.Sprint(m.statuses[j]))
 		}
-		s += fmt.Sprintf("/%d:%d:%d:%d:%d:%d:%d:%s:%s", m.rank, m.weight, m.arbiter, m.own, m.pid, m.cid, m.saved, strings.Join(rs, "."), strings.Join(vs, "."))
+		s += fmt.Sprintf("/%d:%d:%d:%d:%d:%d:%d:%s:%s:%s", m.rank, m.weight, m.arbiter, m.own, m.pid, m.cid, m.saved, strings.Join(rs, "."), strings.Join(vs, "."), strings.Join(ss, "."))
 	}
 	return s
 }
@@ -709,6 +777,27 @@ func vElNewRun(r *rand.Rand, dir string, logger logging.Logger) *vElRun {
 				v = 0
 			}
 			s.views = append(s.views, v)
+			s.statuses = append(s.statuses, ARBITER_MEMBER_STATUS_ONLINE)
+		}
+	}
+	// some members still know a leader (an entry with role LEADER), some links are down
+	if r.Intn(5) == 0 {
+		l := r.Intn(n)
+		for i := 0; i < n; i++ {
+			if r.Intn(3) == 0 {
+				x.spec[i].roles[l] = ARBITER_ROLE_LEADER
+				if i != l && r.Intn(3) == 0 {
+					x.spec[i].statuses[l] = ARBITER_MEMBER_STATUS_OFFLINE // a leader that is known but not reachable does not block
+				}
+			}
+		}
+	}
+	if r.Intn(5) == 0 {
+		for k := 0; k < 1+r.Intn(3); k++ {
+			i, j := r.Intn(n), r.Intn(n)
+			if i != j {
+				x.spec[i].statuses[j] = ARBITER_MEMBER_STATUS_OFFLINE
+			}
 		}
 	}
 	x.sps = make([][]*BinaryServerProtocol, n)
@@ -967,6 +1056,9 @@ func vElFromSpec(spec, dir string, logger logging.Logger) *vElRun {
 		for _, v := range strings.Split(f[8], ".") {
 			s.views = append(s.views, vElAtoi(v))
 		}
+		for _, v := range strings.Split(f[9], ".") {
+			s.statuses = append(s.statuses, vElAtoi(v))
+		}
 		x.spec = append(x.spec, s)
 		h := fmt.Sprintf("h%d", s.rank)
 		x.hosts = append(x.hosts, h)
@@ -1043,11 +1135,22 @@ func (x *vElRun) find(req bool, c, t int) *vElMsg {
 	return nil
 }
 
-// the executions of the Lean theorems C12_monotone_counterexample, C12_monotone_with_restart_counterexample,
-// C12_one_winner_counterexample and C12_one_winner_with_restart_counterexample, replayed on the real code
+// Fixed op lines replayed on the real code before the generated ones.
+// MUST-PASS corpus (former witnesses of repaired defects; any monitor that fires on them is a regression):
+//
+//	0  Slock.C12.C12_monotone_corpus    — D2 (d-proposal overwrite): member 0 promises 2 while its own round 1 is open; its
+//	                                       DoProposal then succeeds and proposalId must stay 2
+//	2  Slock.C12.C12_one_winner_corpus  — D3 (foreign latch cleared): X's commit round fails after B's commit latched X;
+//	                                       X must stay latched on B and must not start another candidacy (`s0` → waiting)
+//
+// WITNESSES of what is still recorded:
+//
+//	1  C12_one_winner_with_restart_counterexample / C12_monotone_with_restart_counterexample (D1)
+//	3  C12_one_winner_counterexample — a candidate that loses the replies of its commit round releases its own latch
+//	                                       although a majority holds the commit; a second majority forms (one leader only)
 const vElLog = "A=00000000000000000000000000000000,030000004000000000f1536500000000"
-const vElC3 = vElLog + "/0:1:0:1:0:0:0:2.2.2:0.0.0/1:1:0:1:0:0:0:2.2.2:0.0.0/2:1:0:1:0:0:0:2.2.2:0.0.0"
-const vElC3r = vElLog + "/2:1:0:1:0:0:0:2.2.2:0.0.0/0:1:0:1:0:0:0:2.2.2:0.0.0/1:1:0:1:0:0:0:2.2.2:0.0.0"
+const vElC3 = vElLog + "/0:1:0:1:0:0:0:2.2.2:0.0.0:5.5.5/1:1:0:1:0:0:0:2.2.2:0.0.0:5.5.5/2:1:0:1:0:0:0:2.2.2:0.0.0:5.5.5"
+const vElC3r = vElLog + "/2:1:0:1:0:0:0:2.2.2:0.0.0:5.5.5/0:1:0:1:0:0:0:2.2.2:0.0.0:5.5.5/1:1:0:1:0:0:0:2.2.2:0.0.0:5.5.5"
 
 func vElSolo(c, t, u int) string {
 	s := fmt.Sprintf("s%d;q%d.%d;q%d.%d;r%d.%d;xq%d.%d", c, c, c, c, t, c, t, c, u)
@@ -1060,7 +1163,9 @@ func vElSolo(c, t, u int) string {
 var vElCanned = [][2]string{
 	{vElC3, "s0;q0.0;q0.1;r0.1;q0.2;r0.2;q0.0;q0.2;r0.2;q0.1;s1;q1.1;q1.0;r1.0;q1.2;r1.2;q1.1;q1.0;r0.1;q0.0;Z"},
 	{vElC3r, vElSolo(0, 1, 2) + ";R1;" + vElSolo(2, 1, 0) + ";Z"},
-	{vElC3, "s0;q0.0;q0.1;r0.1;q0.2;r0.2;q0.0;q0.1;r0.1;" + vElSolo(1, 0, 2) + ";q0.2;r0.2;q0.0;xq0.1;xq0.2;" + vElSolo(0, 2, 1) + ";Z"},
+	{vElC3, "s0;q0.0;q0.1;r0.1;q0.2;r0.2;q0.0;q0.1;r0.1;" + vElSolo(1, 0, 2) + ";q0.2;r0.2;q0.0;xq0.1;xq0.2;s0;Z"},
+	{vElC3, "s0;q0.0;q0.1;r0.1;xq0.2;q0.0;q0.1;r0.1;xq0.2;q0.0;q0.1;xr0.1;xq0.2;" +
+		"s2;q2.2;q2.0;r2.0;xq2.1;q2.2;q2.0;r2.0;xq2.1;" + vElSolo(2, 0, 1) + ";Z"},
 }
 
 // end of a run: let every pending phase end (all remaining messages lost) so that no goroutine is left behind
